@@ -807,14 +807,41 @@ class ManifoldWorld(SmallWorld):
         return L
 
     def diagnose(self, op, arg, hit, fresh, post, L, prefix):
+        # orbit version after each step, and the steps since the manifold's cache was last emptied
+        per, pers, start = "T", [], 0
+        for i, st in enumerate(prefix):
+            if st["op"] == "OrbitSetPeriod":
+                per = st["arg"][0]
+            if st["op"] in ("NewManifold", "SaveLoad") and i < len(prefix) - 1:
+                start = i + 1
+            pers.append(per)
+        now = pers[-2] if len(pers) > 1 else "T"          # the orbit when this operation ran
+
+        def made_at_other_version(pred):
+            """the cache entry this operation relies on was created (first matching step since the cache was
+            emptied) for a different orbit version than the current one"""
+            for i in range(start, len(prefix) - 1):
+                if pred(prefix[i]):
+                    return (pers[i - 1] if i > 0 else "T") != now
+            return False
+
+        same = lambda st: st["op"] == op and list(st["arg"]) == list(arg)
+        uses_stab = lambda st: st["op"] in ("Compute", "ReadEigenvalues")
         if op == "Compute" and fresh and hit == "H":
             return "manifold.compute|_manifold_result-not-updated-on-cache-hit"
-        if op == "Compute":      # served from the cache, or recomputed from a cached STM / stability of the old orbit
-            return "manifold.compute|stale-after-orbit-change"
+        if op == "Compute" and hit == "H":
+            return ("manifold.compute|stale-after-orbit-change"
+                    if made_at_other_version(same) or made_at_other_version(uses_stab)
+                    else "manifold.compute|distinct-requests-share-a-cache-entry")
+        if op == "Compute":      # recomputed from a cached STM / stability of the old orbit
+            return ("manifold.compute|stale-after-orbit-change" if made_at_other_version(uses_stab)
+                    else "manifold.compute|differs-from-fresh-twin")
         if op == "ComputeStm" and hit == "H":
-            return "manifold.compute_stm|stale-after-orbit-change"
+            return ("manifold.compute_stm|stale-after-orbit-change" if made_at_other_version(same)
+                    else "manifold.compute_stm|distinct-requests-share-a-cache-entry")
         if op == "ReadEigenvalues":
-            return "manifold.stability|stale-after-orbit-change"
+            return ("manifold.stability|stale-after-orbit-change" if made_at_other_version(uses_stab)
+                    else "manifold.stability|differs-from-fresh-twin")
         if op == "SaveLoad":
             return "manifold.save-load|state-not-preserved"
         return f"manifold.{op}|differs-from-fresh-twin"
@@ -957,7 +984,7 @@ def part_small(ck: Check, world: SmallWorld, mcspec: str, cfg_live: str, cfg_rep
                budget: int, keep=None, flags=None, wd=None):
     r = tlc(OBJ / mcspec, CFG / cfg_repaired, timeout=900, workers=8)
     ck.model(cfg_repaired[:-4], r)
-    cfg = make_cfg(cfg_live, flags or {}, wd, cfg_live)
+    cfg = make_cfg(cfg_live, flags or {}, wd or workdir("c20s"), cfg_live)
     r = tlc(OBJ / mcspec, cfg, timeout=900, workers=1)
     ck.model(cfg_live[:-4] + ".live", r)
     hists = drop_prefixes([h for h in r.printed() if isinstance(h, list)])
